@@ -10,10 +10,10 @@ CHECKS = {
                 text='For every shape/pattern/aliasing/alpha configuration inside the bound the real SparseMatrix*::apply code is executed symbolically and z3 decides, over all real values, equality with an independent dense oracle and operand immutability. Bounded (shapes, nnz); real arithmetic (no rounding).',
                 note='Trusted: g++ instantiation with SymReal, term DAG printer (shadow cross-check), z3 5.1.0, dense oracle. Assumes x not aliasing r, real arithmetic. Outside: rounding, MKL/CUDA, larger shapes.',
                 ref='3/C01'),
-    'C02': dict(cat='other', engine='E2',
-                technique='bounded symbolic execution of the real transpose/clone/convert/permute code over a symbolic real scalar for every pattern, clone mode, index-type pair and permutation in the bound; dense-expansion identities + layout validity',
+    'C02': dict(cat='other', engine='E2+E3',
+                technique='bounded symbolic execution of the real transpose/clone/convert/permute code over a symbolic real scalar for every pattern, clone mode, index-type pair and permutation in the bound (dense-expansion identities + layout validity); CSR transpose/clone/permute additionally with symbolic column indices and permutation arrays in an LLVM-IR symbolic executor, z3 bit-vectors deciding entry-wise equality and layout validity on every path',
                 text='Every pattern (incl. entry-free, empty rows), clone mode (same and other index type), conversion chain CSR<->CSCR/Banded/BCSR/other index type, row/column permutation and DenseMatrix transpose target shape inside the bound is executed on the real classes with symbolic values; results must represent the same (transposed / permuted) matrix for all values with correct dimensions and valid layout; clone aliasing by pointer identity and write-through.',
-                note='Trusted: SymReal instantiation, DAG printer, z3 5.1.0. Index arrays are concrete per swept pattern (exhaustive within the bound, not symbolic). Three defects fixed (transpose of entry-free matrix; CSCR conversion with empty rows; meta matrix -> CSR conversion with an entry-free block). Outside: data-type conversions, chains longer than 2 (BCSR transpose is covered in the blocked slice of C03, BCSR clone / permute / index-type conversion here).',
+                note='Trusted: SymReal instantiation, DAG printer, z3 5.1.0. Index arrays are concrete per swept pattern in the E2 part (exhaustive within the bound); in the E3 structural slice the column indices and the permutations are symbolic (row lengths concrete per profile), trusting the clang-14 IR and my executor (co-executed against an ASan native build each run). Three defects fixed (transpose of entry-free matrix; CSCR conversion with empty rows; meta matrix -> CSR conversion with an entry-free block). Outside: data-type conversions, chains longer than 2 (BCSR transpose is covered in the blocked slice of C03, BCSR clone / permute / index-type conversion here).',
                 ref='3/C02'),
     'C03': dict(cat='other', engine='E2',
                 technique='bounded symbolic execution of the real SparseMatrixCSR algebra over a symbolic real scalar; z3 (NRA) decides equality with the dense formula; abort reachability for rejected patterns',
